@@ -11,6 +11,7 @@ import (
 	"crypto/sha256"
 	"encoding/hex"
 	"encoding/json"
+	"flag"
 	"fmt"
 	"math/rand/v2"
 	"os"
@@ -30,6 +31,7 @@ type Witness struct {
 	Ops      []Op     `json:"ops"`
 	OpsText  []string `json:"ops_text"`
 	Note     string   `json:"note,omitempty"`
+	MQ       bool     `json:"through_mainqueue,omitempty"`
 }
 
 func opsText(ops []Op) []string {
@@ -62,7 +64,7 @@ func reportFindings(r *evid.Run, rn *runner, kind string, idx int64) {
 		if f.At+1 <= len(ops) {
 			ops = ops[:f.At+1]
 		}
-		w := Witness{Kind: kind, Case: idx, Seed: r.Seed, Capacity: rn.m.capacity, FailedAt: f.At, Ops: ops, OpsText: opsText(ops)}
+		w := Witness{Kind: kind, Case: idx, Seed: r.Seed, Capacity: rn.m.capacity, FailedAt: f.At, Ops: ops, OpsText: opsText(ops), MQ: rn.mq}
 		r.Violation(f.Sig, f.What+" || sequence (capacity "+fmt.Sprint(rn.m.capacity)+"): "+strings.Join(w.OpsText, " ; "), w)
 	}
 }
@@ -293,13 +295,45 @@ func finishSeq(r *evid.Run, rn *runner, kind string, idx int64, registerKey bool
 	}
 }
 
+// toMQ rewrites the two operations mainQueue does not offer on their own into
+// the mainQueue calls that contain them: a raw reset becomes Schedule(0)
+// (reset + schedule(0)), a raw forward(sender, n) becomes the Add of a fresh
+// transaction with sequence n-1 reported with state sequence n (forwarded, then
+// rejected as expired); forward(sender, 0) never does anything.
+func (g *gen) toMQ(o Op) Op {
+	switch o.Kind {
+	case "reset":
+		return Op{Kind: "schedule", Limit: 0}
+	case "forward":
+		if o.Seq == 0 {
+			return Op{Kind: "extra", Limit: 0}
+		}
+		n := Op{Kind: "add", Tx: g.nextID, Sender: o.Sender, Seq: o.Seq - 1, Prio: prios[g.rng.IntN(len(prios))], StateSeq: o.Seq}
+		g.nextID++
+		return n
+	}
+	return o
+}
+
 func runRandom(r *evid.Run, idx int64, nops int, st stats) {
 	rng := r.Rand(20, uint64(idx))
 	capacity := 1 + rng.IntN(6)
-	rn := newRunner(capacity, fmt.Sprintf("r%d", idx), st)
+	// every other sequence goes through the production wrapper mainQueue
+	mq := idx%2 == 1
+	var rn *runner
+	if mq {
+		rn = newRunnerMQ(capacity, fmt.Sprintf("r%d", idx), st)
+		st["random.sequences_through_mainqueue"]++
+	} else {
+		rn = newRunner(capacity, fmt.Sprintf("r%d", idx), st)
+	}
 	g := newGen(rng, rn)
 	for i := 0; i < nops && !rn.stop(); i++ {
-		rn.step(g.next())
+		o := g.next()
+		if mq {
+			o = g.toMQ(o)
+		}
+		rn.step(o)
 	}
 	st["random.sequences"]++
 	st[fmt.Sprintf("random.capacity_%d", capacity)]++
@@ -344,7 +378,7 @@ var exhBases = []uint64{0, maxI64, maxU64 - 1}
 // runExhaustive enumerates all sequences of exactly `length` letters that
 // start with letter `first` (all shorter sequences are prefixes and are
 // checked on the way, the checker being online).
-func runExhaustive(r *evid.Run, base uint64, capacity, length, first int, st stats) {
+func runExhaustive(r *evid.Run, base uint64, capacity, length, first int, mq bool, st stats) {
 	alpha := alphabet()
 	idxs := make([]int, length)
 	idxs[0] = first
@@ -365,6 +399,10 @@ func runExhaustive(r *evid.Run, base uint64, capacity, length, first int, st sta
 		}
 		if valid {
 			rn := newRunner(capacity, "x", st)
+			if mq {
+				rn = newRunnerMQ(capacity, "x", st)
+				st["exhaustive.sequences_through_mainqueue"]++
+			}
 			adds := []int{}
 			for i := 0; i < length && !rn.stop(); i++ {
 				l := alpha[idxs[i]]
@@ -424,6 +462,9 @@ func replay(r *evid.Run) {
 	}
 	st := stats{}
 	rn := newRunner(doc.Witness.Capacity, "replay", st)
+	if doc.Witness.MQ {
+		rn = newRunnerMQ(doc.Witness.Capacity, "replay", st)
+	}
 	for _, o := range doc.Witness.Ops {
 		if rn.dead {
 			break
@@ -444,7 +485,14 @@ func replay(r *evid.Run) {
 }
 
 func main() {
+	concArg := flag.String("concchild", "", "internal: run the concurrent cases lo:hi and print the result")
 	r := evid.Start("C20", "exploration")
+	if *concArg != "" {
+		var lo, hi int
+		fmt.Sscanf(*concArg, "%d:%d", &lo, &hi)
+		concChild(r, lo, hi)
+		return
+	}
 	r.Rule = "operation sequences add/schedule(reset+schedule)/scheduleExtra/txUsed/forward/reset/drain on the real main queue scheduler, " +
 		"1-4 senders, capacity 1-6, limits 0-6, priorities {0,1,2,max}, sequence numbers dense around 0, 1000, 2^63-1, 2^63, 2^64-2, 2^64-1 with gaps and duplicates; " +
 		"every operation's result and the pool content are compared with a naive reference model. A sequence is non-trivial when a schedule pass " +
@@ -480,7 +528,7 @@ func main() {
 	flush(r, st)
 
 	// 2. random sequences
-	nseq := r.Pick(20000, 2000000)
+	nseq := r.Pick(40000, 2000000)
 	nops := 40
 	const chunk = 500
 	nchunks := (nseq + chunk - 1) / chunk
@@ -502,20 +550,38 @@ func main() {
 		base     uint64
 		capacity int
 		first    int
+		mq       bool
 	}
 	var jobs []job
 	for _, b := range exhBases {
 		for c := 1; c <= 3; c++ {
 			for f := range alpha {
-				jobs = append(jobs, job{b, c, f})
+				jobs = append(jobs, job{b, c, f, false}, job{b, c, f, true})
 			}
 		}
 	}
 	evid.Parallel(len(jobs), 0, func(i int) {
 		lst := stats{}
-		runExhaustive(r, jobs[i].base, jobs[i].capacity, length, jobs[i].first, lst)
+		runExhaustive(r, jobs[i].base, jobs[i].capacity, length, jobs[i].first, jobs[i].mq, lst)
 		flush(r, lst)
 	})
+	// 4. concurrent cases on the shared mainQueue (race detector build)
+	runConcPhase(r, r.Pick(400, 20000))
+	if sc := os.Getenv("VERIF_SCRATCH"); sc != "" {
+		reps := evid.RaceReports(sc + "/race")
+		r.Count("race_reports_distinct", int64(len(reps)))
+		for _, rep := range reps {
+			frames := strings.Split(rep.Key, "|")
+			short := rep.Key
+			if len(frames) > 2 {
+				short = frames[0] + "|" + frames[len(frames)/2]
+			}
+			r.Violation("race/"+short, fmt.Sprintf("data race reported %d times", rep.Count), map[string]any{"report": rep.Text, "count": rep.Count})
+		}
+	} else {
+		r.Assume("VERIF_SCRATCH not set: race detector log not parsed in this run")
+	}
+
 	r.Set("exhaustive_part", map[string]any{
 		"alphabet_letters": len(alpha), "length": length, "bases": []string{"0", "2^63-1", "2^64-2"}, "capacities": []int{1, 2, 3},
 		"note": "all sequences of exactly this length (prefixes checked online); sequences using 'used(k)' before k+1 adds are skipped as ill-formed",
